@@ -29,6 +29,7 @@ func runC16(c *Ctx) {
 	r.Rule("C16.R2", "RTPTransceiver.getCodecs (the only codec source of addTransceiverSDP): every returned value derives from getCodecsByKind(t.kind) or from a preference that fuzzy-matches it; a preference whose match type against getCodecsByKind(t.kind) is None is never returned", 3)
 	r.Rule("C16.R7", "getCodecs: every path to the append of a preference passes `pref.PayloadType = <match of this iteration>.PayloadType` or a test that pref.PayloadType != 0; SetCodecPreferences never writes a PayloadType (a payload-type-less preference follows the negotiated, remote-numbered list)", 2)
 	r.Rule("C16.R8", "same rule as C15.R5: codecParametersFuzzySearch returns Partial only under EqualFold(mime), ClockRateEqual and ChannelsEqual (a preference kept for an offered payload type is the same codec: mime type, clock rate, channels)", 4)
+	r.Rule("C16.R9", "the MediaEngine learns codecs only from accepted descriptions: in SetRemoteDescription the call of updateFromRemoteDescription is dominated by pc.setDescription and reachable from it only through the edge establishing its error nil", 1)
 	r.Rule("C16.R5", "an RTX codec is added to a remote-created transceiver's preferences only when every RTX look-up of that iteration succeeded (the remote section offered RTX for the primary and the media engine has one)", 1)
 	r.Rule("C16.R6", "pushCodecs never loses an addCodec error (payload type re-used for another codec): on every path a possibly non-nil error reaches errors.Join / the return value before being overwritten", 2)
 	r.NotCovered = append(r.NotCovered,
@@ -49,6 +50,7 @@ func runC16(c *Ctx) {
 	c16R6(c, "C16.R6")
 	c16R7(c, "C16.R7") // c16c.go
 	c15R5(c, "C16.R8")
+	c16R9(c)
 }
 
 // c16NegotiatedWriters: negotiated lists are written only inside pushCodecs with elements of its parameter; pushCodecs is called only from updateFromRemoteDescription.
